@@ -270,7 +270,7 @@ class Analyzer:
     def return_range(self, key, depth=0, args=None):
         """Range of the values a function can return; `args` (tuple of intervals per parameter, or None)
         makes the summary context-sensitive for helpers that return an updated parameter."""
-        mkey = (key, args)
+        mkey = (key, args, depth)       # the depth limit truncates callees: a result is only valid for its own depth
         if mkey in self._ret:
             return self._ret[mkey]
         fn = self.prog.by_key.get(key)
@@ -296,6 +296,16 @@ class Analyzer:
                 r = meet(r, type_range(fn.ret_type())) if type_range(fn.ret_type()) != TOP else r
         finally:
             self._stack.discard(key)
+        if args is not None:
+            # the context-free summary is sound for every context: never be less precise than it (the
+            # context-sensitive run can lose precision to the depth limit, which depends on the call order)
+            r0 = self.return_range(key, depth, None)
+            if r0 is not None:
+                if r is None:
+                    r = r0
+                else:
+                    m = meet(r, r0)
+                    r = m if not is_empty(m) else r
         self._ret[mkey] = r
         return r
 
@@ -997,6 +1007,16 @@ class FnIntervals:
             a, b = kids(c)
             if not truth:
                 op = {'<': '>=', '<=': '>', '>': '<=', '>=': '<', '==': '!=', '!=': '=='}[op]
+            # an edge whose (possibly negated) comparison is false for every pair of values is infeasible
+            if any(x['k'] in ('CallExpr', 'CXXMemberCallExpr') for x in walk_nodes(c)):
+                va = vb = (None, None)       # evaluating a call here would recurse into its summary out of order
+            else:
+                va, vb = self.eval(a, st), self.eval(b, st)
+            if None not in va and None not in vb:
+                never = {'<': va[0] >= vb[1], '<=': va[0] > vb[1], '>': va[1] <= vb[0], '>=': va[1] < vb[0],
+                         '==': va[1] < vb[0] or va[0] > vb[1], '!=': va[0] == va[1] == vb[0] == vb[1]}[op]
+                if never:
+                    return None
             st2 = dict(st)
             for lhs, rhs, o in ((a, b, op), (b, a, {'<': '>', '<=': '>=', '>': '<', '>=': '<=', '==': '==', '!=': '!='}[op])):
                 l = strip(lhs, casts=False)
